@@ -158,11 +158,11 @@ Qed.
 
 (* ALL clauses of the name checker hold of the payload model when the plan has its parents first *)
 Theorem names_wellformed_all f mt cs : f <> FRpm -> all_prepared f cs -> NoDup (map location cs) ->
-  parents_beforeb [] cs = true ->
+  named_root_ok f cs -> parents_beforeb [] cs = true ->
   check_names f (members_of (payload_of f mt cs)) = [].
 Proof.
-  intros NR AP ND PB.
-  pose proof (names_wellformed f mt cs NR AP ND) as Hall.
+  intros NR AP ND RO PB.
+  pose proof (names_wellformed f mt cs NR AP ND RO) as Hall.
   destruct (members_described f mt cs NR AP) as (l & El & Kl & Ml).
   assert (PP : parents_precedeb [] (map fst (members_of (payload_of f mt cs))) = true).
   { rewrite Ml. apply (parents_names f l []); [exact Kl|]. cbn [map]. rewrite El. exact PB. }
@@ -173,19 +173,20 @@ Proof.
         destruct b; cbn [app] in *;
         [|exfalso; assert (c = WParents) as X by (apply Hall; left; reflexivity); discriminate X]
     end.
-  kill Hall. kill Hall. kill Hall. kill Hall. kill Hall. reflexivity.
+  kill Hall. kill Hall. kill Hall. kill Hall. kill Hall. kill Hall. reflexivity.
 Qed.
 
 (* the same for every plan the planning model produces: C05 supplies "parents first" *)
 Theorem plan_names_wellformed_all f fs st ces umask mt cs : f <> FRpm ->
   oracle_okb fs st umask mt ces = true -> prep fs st ces umask (fmt_name f) mt = Ok cs -> envelope_C01 cs = true ->
+  named_root_ok f cs ->
   check_names f (members_of (payload_of f mt cs)) = [].
 Proof.
-  intros NR OK H Env.
+  intros NR OK H Env RO.
   destruct (plan_entries _ _ _ _ _ _ _ OK H) as (E & NL & _).
   destruct (plan_clauses _ _ _ _ _ _ _ OK H) as (_ & _ & _ & _ & PB & _).
   unfold envelope_C01 in Env. apply andb_true_iff in Env as [E1 E2]. rewrite forallb_forall in E1, E2.
-  apply names_wellformed_all; [exact NR| |exact NL|exact PB].
+  apply names_wellformed_all; [exact NR| |exact NL|exact RO|exact PB].
   intros c Hc. destruct (E c Hc) as (K & R & T). split; auto.
   intros D. specialize (E2 c Hc). rewrite D in E2. cbn [orb] in E2. apply negb_true_iff in E2.
   intros L. rewrite L in E2. discriminate.
